@@ -206,8 +206,15 @@ func (cl *cluster) oracleElection(v controller.VerifView, s signal) {
 		cl.violate("election", "signal-to-unregistered", fmt.Sprintf("start signalled to %s which is not registered: %v", s.target, v.Registered))
 		return
 	}
-	if t.RepState == "rebuilding" {
-		cl.violate("election", "elected-rebuilding", fmt.Sprintf("start signalled to %s which registered in state rebuilding", s.target))
+	// ground truth for the state a node registered with: what the harness sent, not what the controller recorded
+	truthState := func(a string) string {
+		if n := nodeOf("tcp://" + a + ":9502"); n >= 0 && n < len(cl.cfg.States) && cl.cfg.States[n] != "" {
+			return cl.cfg.States[n]
+		}
+		return "closed"
+	}
+	if t.RepState == "rebuilding" || truthState(s.target) == "rebuilding" {
+		cl.violate("election", "elected-rebuilding", fmt.Sprintf("start signalled to %s which registered in state rebuilding (the controller recorded state %q)", s.target, t.RepState))
 	}
 	if v.StartSignalled && v.MaxRevReplica == s.target {
 		// a repeated signal to the leader that was already elected (it re-registers every 5 s): not a new pick
@@ -227,7 +234,7 @@ func (cl *cluster) oracleElection(v controller.VerifView, s signal) {
 	}
 	for a, r := range v.Registered {
 		n := nodeOf("tcp://" + a + ":9502")
-		if r.RevCount > t.RevCount && r.RepState != "rebuilding" && n >= 0 && !cl.down[n] {
+		if r.RevCount > t.RevCount && r.RepState != "rebuilding" && truthState(a) != "rebuilding" && n >= 0 && !cl.down[n] {
 			cl.violate("election", "elected-not-max", fmt.Sprintf("start signalled to %s (revision %d) although %s is registered, reachable, not rebuilding and has revision %d; registered: %s", s.target, t.RevCount, a, r.RevCount, regStr(v)))
 		}
 	}
@@ -418,7 +425,7 @@ func (cl *cluster) key() string {
 		}
 		fmt.Fprintf(&b, "CB replicas=%v ro=%v fe=%v signals=%v clonestatus=%s cloneof=%d\n", vB.Replicas, vB.ReadOnly, vB.FrontendUp, cl.signalsB, st, cl.cloneOf)
 	}
-	fmt.Fprintf(&b, "M writes=%v snaps=%d adds=%d restarts=%d regs=%d reads=%d faults=%d lastsig=%+v\n", ack, cl.nSnaps, cl.nAdds, cl.nRestart, cl.nRegs, cl.nReads, cl.nFaults*100+cl.nResizes*10+cl.nTicks+cl.nReverts*10000+len(cl.goodSnaps)*100000, cl.lastStartSignal())
+	fmt.Fprintf(&b, "M writes=%v snaps=%d adds=%d restarts=%d regs=%d reads=%d faults=%d lastsig=%+v\n", ack, cl.nSnaps, cl.nAdds, cl.nRestart, cl.nRegs, cl.nReads, cl.nFaults*100+cl.nResizes*10+cl.nTicks+cl.nReverts*10000+len(cl.goodSnaps)*100000+cl.nUnmaps*1000000, cl.lastStartSignal())
 	h := sha1.Sum([]byte(b.String()))
 	cl.lastKeyText = b.String()
 	return fmt.Sprintf("%x", h[:12])
@@ -675,8 +682,19 @@ func (cl *cluster) enabled() []string {
 				out = append(out, "FiemapFail")
 			}
 		case "XferFail":
-			if cl.task != nil && !cl.task.done && cl.task.kind == "rebuild" && !cl.failXfer && faultsLeft(1) && cl.cnt["transfers_failed"] == 0 {
+			if cl.task != nil && !cl.task.done && (cl.task.kind == "rebuild" || cl.task.kind == "clone") && !cl.failXfer && faultsLeft(1) && cl.cnt["transfers_failed"] == 0 {
 				out = append(out, "XferFail")
+			}
+		case "UnB":
+			if !c.Real || cl.nUnmaps >= 1 || len(readers) == 0 || (!c.UnmapAnytime && ((cl.task != nil && !cl.task.done) || len(readers) != len(writers))) {
+				continue
+			}
+			seen := map[int]bool{}
+			for id := 1; id <= cl.nWrites; id++ {
+				if b := blockOf(id); cl.acked[id] && !cl.undone[id] && !seen[b] {
+					seen[b] = true
+					out = append(out, fmt.Sprintf("UnB:%d", b))
+				}
 			}
 		case "Kill":
 			if cl.task != nil && !cl.task.done && (c.MaxRestarts == 0 || cl.nRestart < c.MaxRestarts) {
